@@ -37,7 +37,7 @@ def main():
         ))
     man = dict(
         version=1,
-        setup_cmd="cd lean && lake build PbModel PbProofs PbProps pbdriver",
+        setup_cmd="python3 -m pbverif.extract /repo && cd lean && lake build PbModel PbProofs PbProps pbdriver",
         hooks=dict(guard="PULSARBAT_VERIF", enable="none needed: no source hooks; checks import /repo's working tree directly",
                    baseline_off_cmd="cd /repo && /venv/bin/python -m pytest -ra -q -p no:cacheprovider --timeout=900 --continue-on-collection-errors",
                    source_commits=[], add_only=True),
